@@ -100,6 +100,9 @@ func buildTagFields(rt reflect.Type, nested, omitEmpty bool) (fa []*finfo) {
 			continue
 		}
 		var fx byte
+		if omitEmpty {
+			fx |= omitMask
+		}
 		if embeddedStruct(&f) && nested {
 			if f.Type.Kind() == reflect.Ptr {
 				for _, fi := range buildTagFields(f.Type.Elem(), nested, omitEmpty) {
